@@ -145,3 +145,12 @@ Example C18_example_precedence :
   /\ colour_mode (env_of (Some []) None None) = Never                (* set-but-empty counts as set *)
   /\ colour_mode (env_of None None (Some [49])) = Auto.
 Proof. vm_compute. repeat split. Qed.
+
+(* unrestricted appender, NO_COLOR=1, stdout a pipe, highlighted WARN: the plain text is written *)
+Example C18_example_untied :
+  let w := {| w_env := env_of (Some [49]) None None; w_out_tty := false; w_err_tty := true |} in
+  let a := {| a_target := Stdout; a_tty_only := false;
+              a_pattern := [CHighlight [CLevel]; CText [32]; CMessage; CNewline] |} in
+  a_tty_only a = false /\ known_class w a = false
+  /\ append w a Warn [104; 105] = Ok ([87; 65; 82; 78; 32; 104; 105; 10], []).
+Proof. vm_compute. repeat split. Qed.
